@@ -340,6 +340,9 @@ func GenCase(r *rng.R) Case {
 				rq.ACRH = nil
 			}
 		}
+		if rq.R.Method != "OPTIONS" && r.Chance(1, 8) {
+			rq.Retry = true
+		}
 		c.Reqs = append(c.Reqs, rq)
 	}
 	return c
